@@ -158,7 +158,8 @@ func (h *Handler) handleRequest(host *packet.Host, p packet.DHCP4, options packe
 			lease.State == StateFree || // nothing was offered to this client and it holds no lease
 			(lease.State == StateDiscover && (!bytes.Equal(lease.XID, p.XId()) || lease.IPOffer != reqIP)) || // invalid discover request
 			(lease.State == StateDiscover && !h.ipAvailable(lease, reqIP)) || // offered address was taken by another client in the meantime
-			(lease.State == StateAllocated && lease.Addr.IP != reqIP) { // invalid request - iphone send duplicate select packets - let it pass
+			(lease.State == StateAllocated && lease.Addr.IP != reqIP) || // invalid request - iphone send duplicate select packets - let it pass
+			(lease.State == StateAllocated && lease.DHCPExpiry.Before(time.Now())) { // the lease ran out (the ticker has not freed it yet): as in the renewing branch, no ACK
 			Logger.Msg("request NACK - select invalid parameters").ByteArray("xid", p.XId()).ByteArray("lxid", lease.XID).IP("leaseIP", lease.Addr.IP).Write()
 			return nakPacket(p, subnet.DHCPServer.AsSlice(), clientID)
 		}
@@ -206,7 +207,8 @@ func (h *Handler) handleRequest(host *packet.Host, p packet.DHCP4, options packe
 
 		if lease.State != StateAllocated ||
 			lease.Addr.IP != reqIP || !bytes.Equal(lease.Addr.MAC, p.CHAddr()) ||
-			!subnet.LAN.Contains(lease.Addr.IP) {
+			!subnet.LAN.Contains(lease.Addr.IP) ||
+			lease.DHCPExpiry.Before(time.Now()) { // ran out, the ticker has not freed it yet
 			Logger.Msg("request NACK - rebooting").ByteArray("xid", p.XId()).IP("ip", reqIP).Write()
 
 			if h.mode == ModeSecondaryServer || (h.mode == ModeSecondaryServerNice && captured) {
